@@ -2,6 +2,7 @@
 from __future__ import annotations
 
 import importlib
+import json
 import os
 import random
 import sys
@@ -585,5 +586,7 @@ def validate_task(modname, tier, casename, model_json, opts, skip=()):
             xa, xb = a["observables"][k], b["observables"].get(k)
             if xb is None or len(xa) != len(xb) or any(abs(float(p) - float(q)) > 1e-3 * (1 + abs(float(p))) for p, q in zip(xa, xb)):
                 problems.append(f"observable {k} differs: proxy {xa} vs real {xb}")
+    if problems:
+        problems = [p_ + f" [model={json.dumps(model_json)[:1200]}]" for p_ in problems[:1]] + problems[1:]
     return {"case": casename, "ok": not problems, "problems": problems, "n_obs": len(a["obs"]),
             "n_observables": sum(len(x) for x in a["observables"].values())}
